@@ -564,21 +564,48 @@ theorem step_line_switch (s : DashIt K) (l : Line K) (L : K) (hseg : s.current_s
 
 section
 omit [LawfulHypotSq K]
-/-- the `step` that finishes a straight segment: the end point is emitted if the entry is on, the entry gets shorter by the
-    rest of the segment, new input is fetched -/
+theorem restSeg_line_el (s : DashIt K) (l : Line K) (hseg : s.current_seg = .Line l) : segToEl s.restSeg = .LineTo l.p1 := by
+  unfold DashIt.restSeg
+  rw [hseg]
+  simp only [PathSeg.subsegment, segToEl, Line.subsegment, scalar_norm, Nat.cast_one, (line_eval_zero_one l).2]
+
+/-- the `step` that finishes a straight segment: the entry gets shorter by the rest of the segment and new input is fetched;
+    if the entry is on, the end point is emitted – returned, or, while the first dash is being stashed (`ToStash`), pushed to
+    the stash BEFORE the input is fetched (so a `ClosePath` that `get_input` appends comes after it) -/
 theorem step_line_end (s : DashIt K) (l : Line K) (hseg : s.current_seg = .Line l)
     (hst : (s.state == .ToStash && s.stash.isEmpty) = false) (hnlt : ¬ s.dash_remaining < s.seg_remaining) :
-    s.step = some (if s.is_active then some (.LineTo l.p1) else none,
-      ({ s with dash_remaining := s.dash_remaining - s.seg_remaining } : DashIt K).get_input) := by
+    s.step = some (if s.is_active && !(s.state == .ToStash) then some (.LineTo l.p1) else none,
+      ({ (if s.is_active && s.state == .ToStash then { s with stash := s.stash.push (.LineTo l.p1) } else s) with
+          dash_remaining := s.dash_remaining - s.seg_remaining } : DashIt K).get_input) := by
   have h1 : Scalar.lt s.dash_remaining s.seg_remaining = false := by
     simp only [scalar_norm, decide_eq_false_iff_not]; exact hnlt
   rw [step_seg_end s hst h1]
-  have e : segToEl s.restSeg = .LineTo l.p1 := by
-    unfold DashIt.restSeg
-    rw [hseg]
-    simp only [PathSeg.subsegment, segToEl, Line.subsegment, scalar_norm, Nat.cast_one, (line_eval_zero_one l).2]
-  rw [e]
-  simp only [scalar_norm]
+  unfold DashIt.endPush
+  rw [restSeg_line_el s l hseg]
+  cases hb : (s.is_active && s.state == DashState.ToStash) <;> simp only [scalar_norm, Bool.false_eq_true, if_false, if_true]
+
+/-- … in state `Working` (or any state but `ToStash`): the end point is returned if the entry is on -/
+theorem step_line_end_working (s : DashIt K) (l : Line K) (hseg : s.current_seg = .Line l)
+    (hst : (s.state == .ToStash && s.stash.isEmpty) = false) (hns : s.state ≠ .ToStash)
+    (hnlt : ¬ s.dash_remaining < s.seg_remaining) :
+    s.step = some (if s.is_active then some (.LineTo l.p1) else none,
+      ({ s with dash_remaining := s.dash_remaining - s.seg_remaining } : DashIt K).get_input) := by
+  have hb : (s.state == DashState.ToStash) = false := by
+    cases h : (s.state == DashState.ToStash)
+    · rfl
+    · exact absurd (by simpa using h) hns
+  rw [step_line_end s l hseg hst hnlt]
+  simp only [hb, Bool.and_false, Bool.false_eq_true, if_false, Bool.not_false, Bool.and_true]
+
+/-- … in state `ToStash` with the entry on: the end point is pushed to the stash, then input is fetched; nothing is returned -/
+theorem step_line_end_stash (s : DashIt K) (l : Line K) (hseg : s.current_seg = .Line l)
+    (hst : (s.state == .ToStash && s.stash.isEmpty) = false) (hs : s.state = .ToStash) (ha : s.is_active = true)
+    (hnlt : ¬ s.dash_remaining < s.seg_remaining) :
+    s.step = some (none, ({ s with stash := s.stash.push (.LineTo l.p1),
+                                   dash_remaining := s.dash_remaining - s.seg_remaining } : DashIt K).get_input) := by
+  have hb : (s.state == DashState.ToStash) = true := by rw [hs]; rfl
+  rw [step_line_end s l hseg hst hnlt]
+  simp only [hb, ha, Bool.and_true, if_true, Bool.not_true, Bool.and_false, Bool.false_eq_true, if_false]
 end
 
 end Kurbo
